@@ -23,6 +23,7 @@ pub struct LcInfo {
     pub is_resume: bool,
     pub resumes: Option<LifecycleId>,
     pub merged: bool,
+    pub only_control_requests: bool,
 }
 fn info(lc: &Lifecycle) -> LcInfo {
     LcInfo {
@@ -35,6 +36,7 @@ fn info(lc: &Lifecycle) -> LcInfo {
         is_resume: lc.is_resume(),
         resumes: lc.verif_resumed_lc_id(),
         merged: lc.was_merged().is_some(),
+        only_control_requests: lc.only_control_requests(),
     }
 }
 
@@ -148,6 +150,9 @@ pub struct TraceCase {
     /// how often each fault kind fired in the world generator (ground truth, not derivable from the trace)
     #[serde(default)]
     pub gen_fired: BTreeMap<String, u64>,
+    /// lifecycle stage knob: regular refresh every n messages (0 = the code's 100 000)
+    #[serde(default)]
+    pub refresh_every: u32,
 }
 
 pub fn gen_trace_case(rng: &mut Rng, tier: Tier, bias_merge: bool) -> TraceCase {
@@ -172,10 +177,15 @@ pub fn gen_trace_case(rng: &mut Rng, tier: Tier, bias_merge: bool) -> TraceCase 
     let (trace, st) = gen_world(&mut w, &knobs);
     let split = if k.chance(1, 5) && trace.len() > 2 { k.urange(1, trace.len() - 1) } else { 0 };
     let gen_fired = st.fired.iter().map(|(k, v)| (k.to_string(), *v)).collect();
-    TraceCase { trace, split, knobs, gen_fired }
+    let refresh_every = *rng.sub("refresh").pick(&[0u32, 0, 0, 1, 2, 3, 7, 20, 100]);
+    TraceCase { trace, split, knobs, gen_fired, refresh_every }
 }
 
 pub fn record_world(c: &TraceCase, ctx: &mut Ctx) {
+    if c.refresh_every != 0 {
+        adlt_verif_seam::knobs::set_lc_regular_refresh_interval(c.refresh_every);
+        ctx.probe("lc_regular_refresh_interval_shortened");
+    }
     for f in c.knobs.fault_names() {
         ctx.cfg(f);
     }
@@ -247,7 +257,7 @@ pub fn shrink_trace_case(c: &TraceCase) -> Vec<TraceCase> {
         out.push(TraceCase { split: 0, ..c.clone() });
     }
     for t in shrink_vec(&c.trace) {
-        out.push(TraceCase { trace: t, split: 0, knobs: c.knobs.clone(), gen_fired: c.gen_fired.clone() });
+        out.push(TraceCase { trace: t, split: 0, knobs: c.knobs.clone(), gen_fired: c.gen_fired.clone(), refresh_every: c.refresh_every });
     }
     // simplify single messages
     for (i, m) in c.trace.iter().enumerate().take(60) {
@@ -486,6 +496,9 @@ impl Check for C07 {
 #[derive(Clone, Debug, Serialize, Deserialize)]
 pub struct CleanCase {
     pub world: CleanWorld,
+    /// lifecycle stage knob: regular refresh every n messages (0 = the code's 100 000)
+    #[serde(default)]
+    pub refresh_every: u32,
 }
 
 /// is (ecu, boot b -> b+1) a pair of the open-finding family: calculated start of the next boot
@@ -503,9 +516,14 @@ impl Check for C08 {
         t.pick(200_000, 6_000_000)
     }
     fn generate(rng: &mut Rng, _tier: Tier, _idx: u64) -> CleanCase {
-        CleanCase { world: gen_clean_world(rng, 4) }
+        let world = gen_clean_world(rng, 4);
+        CleanCase { world, refresh_every: *rng.sub("refresh").pick(&[0u32, 0, 0, 1, 2, 3, 7, 20, 100]) }
     }
     fn run(c: &CleanCase, ctx: &mut Ctx) -> Result<(), Violation> {
+        if c.refresh_every != 0 {
+            adlt_verif_seam::knobs::set_lc_regular_refresh_interval(c.refresh_every);
+            ctx.probe("lc_regular_refresh_interval_shortened");
+        }
         let w = &c.world;
         // re-check the class on the concrete world (shrinking may leave it): boots sequential with
         // off time >= 1 ms, all receptions of boot b before all of boot b+1
@@ -670,20 +688,20 @@ impl Check for C08 {
                 let mut w2 = w.clone();
                 w2.ecus.remove(e);
                 w2.interleave = w2.interleave.iter().filter(|x| **x as usize != e).map(|x| if *x as usize > e { x - 1 } else { *x }).collect();
-                out.push(CleanCase { world: w2 });
+                out.push(CleanCase { world: w2, refresh_every: c.refresh_every });
             }
             for b in 0..w.ecus[e].len() {
                 if w.ecus[e].len() > 1 {
                     let mut w2 = w.clone();
                     w2.ecus[e].remove(b);
-                    out.push(CleanCase { world: w2 });
+                    out.push(CleanCase { world: w2, refresh_every: c.refresh_every });
                 }
                 if w.ecus[e][b].uptimes_dms.len() > 1 {
                     for u in shrink_vec(&w.ecus[e][b].uptimes_dms) {
                         if !u.is_empty() {
                             let mut w2 = w.clone();
                             w2.ecus[e][b].uptimes_dms = u;
-                            out.push(CleanCase { world: w2 });
+                            out.push(CleanCase { world: w2, refresh_every: c.refresh_every });
                         }
                     }
                 }
@@ -692,7 +710,7 @@ impl Check for C08 {
         if !w.interleave.is_empty() {
             let mut w2 = w.clone();
             w2.interleave = vec![];
-            out.push(CleanCase { world: w2 });
+            out.push(CleanCase { world: w2, refresh_every: c.refresh_every });
         }
         out
     }
